@@ -445,7 +445,7 @@ theorem uncached_members_hold_nothing (P : Edit.Params) (lt : Node → Node → 
 theorem flag_edit_in_base_keeps_invariant (P : Edit.Params) (lt : Node → Node → Prop) (ho : StrictOrder lt)
     (w : Edit.W) (p : SM.Path) (name : String) (v : Nat) (hw : C02.WF (w.env P) lt) (h : Edit.CIW P lt w) :
     Edit.CIW P lt (Edit.step P w (.struct (.setFormula p name v))) :=
-  C02.machine_keeps_ci P lt ho w _ rfl hw h
+  C02.machine_keeps_ci P lt ho w _ hw h
 
 /-- the example of C02 with payload 2 standing for the UNCACHED definition `y * 3` -/
 def fP : Edit.Params := { Edit.eP with flagOf := fun v => v != 2 }
@@ -469,7 +469,6 @@ example : (Edit.run fP {} (fOps.take 5)).ex.data = [((1, []), .int 2)] ∧
 
 theorem fOps_admissible : Edit.Admissible fP idLt {} fOps :=
   Edit.admissible_of_sources fP idLt Edit.eP_noCatch Edit.eP_scoped Edit.eP_noCalls fOps {} Edit.allocOK_empty
-    (by decide)
 
 example : Edit.CIW fP idLt (Edit.run fP {} fOps) :=
   (C02.machine_reachable_ci fP idLt idLt_strict fOps fOps_admissible).1
@@ -477,8 +476,8 @@ example : Edit.CIW fP idLt (Edit.run fP {} fOps) :=
 example (key : Key) : lookup (Edit.run fP {} (fOps.take 7)).ex.data (1, key) = none :=
   uncached_members_hold_nothing fP idLt _
     (C02.machine_reachable_ci fP idLt idLt_strict (fOps.take 7)
-      (Edit.admissible_of_sources fP idLt Edit.eP_noCatch Edit.eP_scoped Edit.eP_noCalls _ {} Edit.allocOK_empty
-        (by decide))).1 1 (by decide) key
+      (Edit.admissible_of_sources fP idLt Edit.eP_noCatch Edit.eP_scoped Edit.eP_noCalls _ {} Edit.allocOK_empty)).1
+    1 (by decide) key
 
 end combined
 
